@@ -52,6 +52,10 @@ func allTags(c *Contract) []string {
 	}
 	add(c.Safety)
 	add(c.AssignTags)
+	add(c.NoGlobals)
+	if c.Delegates != nil {
+		add(c.Delegates.Tags)
+	}
 	for _, cl := range c.Requires {
 		add(cl.Tags)
 	}
@@ -277,9 +281,14 @@ func cmdCheck(args []string) int {
 
 	// baseline of obligation names (fail closed when something stops being generated)
 	baseFile := filepath.Join(*verif, "obligations", *prop+".txt")
+	// only obligations that stem from contract clauses are pinned: safety obligations are named
+	// after instruction ordinals, which harmless refactorings change
+	pinned := map[string]bool{"ensures": true, "appends": true, "invariant": true, "decreases": true, "frame": true, "cover": true, "lemma": true, "unwind": true}
 	var names []string
 	for _, o := range rep.obligations {
-		names = append(names, o.Name)
+		if pinned[o.Kind] {
+			names = append(names, o.Name)
+		}
 	}
 	sort.Strings(names)
 	if *update {
